@@ -50,6 +50,9 @@ type Evaluator struct {
 	Steps   int
 	// DomainNotes collects why a result is outside the oracle's domain
 	Flags map[string]int
+	// OnTerm, when set, is called after a variable, call, member or subscript
+	// term has been evaluated (in completion order) — what debug mode records.
+	OnTerm func(e *m.Expr, v *m.Val)
 }
 
 func NewEvaluator(c *Checker, env map[string]*m.Val, h map[string]HarnessFun) *Evaluator {
@@ -59,6 +62,17 @@ func NewEvaluator(c *Checker, env map[string]*m.Val, h map[string]HarnessFun) *E
 func (ev *Evaluator) flag(s string) { ev.Flags[s]++ }
 
 func (ev *Evaluator) Eval(e *m.Expr) (*m.Val, *Failure) {
+	v, f := ev.eval(e)
+	if f == nil && ev.OnTerm != nil {
+		switch e.K {
+		case "var", "call", "dcall", "member", "index":
+			ev.OnTerm(e, v)
+		}
+	}
+	return v, f
+}
+
+func (ev *Evaluator) eval(e *m.Expr) (*m.Val, *Failure) {
 	ev.Steps++
 	switch e.K {
 	case "num":
